@@ -1518,8 +1518,10 @@ class RulesMixin:
             # before the loop is followed by an unknown stretch
             tr = self.traces
             for k in list(tr):
-                if k == "call_times":
-                    tr[k] = list(tr[k]) + [TraceGap(label)]  # times of earlier calls stay known
+                if k == "call_times" or k.endswith("_ever"):
+                    # times of earlier calls stay known; "..._ever" traces are only asked whether
+                    # something happened at all (trace_any), which an unknown stretch cannot undo
+                    tr[k] = list(tr[k]) + [TraceGap(label)]
                     continue
                 tr[k] = [TraceGap(label)]
         i = None
